@@ -493,23 +493,27 @@ Definition emsa (size : N) (prefix hashed : list N) : list N :=
   let tlen := len prefix + len hashed in
   0 :: 1 :: repeat 255 (N.to_nat (size - tlen - 3)) ++ [0] ++ prefix ++ hashed.
 
-(* rsaVerifyPKCS1v15 *)
-Definition rsa_verify (n e : N) (prefix hashed sig : list N) : bool :=
+(* rsaVerifyPKCS1v15.  [PM] is big.Int.Exp; the model is the instance PM := powmod,
+   the correspondence evaluates the instance PM := powmod_fast (Fast.v), proved equal. *)
+Definition rsa_verify_with (PM : N -> N -> N -> N) (n e : N) (prefix hashed sig : list N) : bool :=
   let size := (bits n + 7) / 8 in
   if negb (len sig =? size) then false else
   let c := os2ip sig in
   if n <=? c then false else
-  let m := powmod c e n in
+  let m := PM c e n in
   let em := min_bytes m in
   if size <? len em then false else
   let tlen := len prefix + len hashed in
   if size <? tlen + pkcs1_min_overhead then false else
   list_eqb (i2osp size m) (emsa size prefix hashed).
 
+Definition rsa_verify := rsa_verify_with powmod.
+
 (* crypto/rsa.VerifyPKCS1v15 as of go1.26 for a key that passed usableRSAKey:
    additionally refuses an even modulus *)
-Definition stdlib_rsa_verify (n e : N) (h : N) (hashed sig : list N) : bool :=
-  if N.odd n && (len hashed =? hash_size h) then rsa_verify n e (stdlib_prefix h) hashed sig else false.
+Definition stdlib_rsa_verify_with (PM : N -> N -> N -> N) (n e : N) (h : N) (hashed sig : list N) : bool :=
+  if N.odd n && (len hashed =? hash_size h) then rsa_verify_with PM n e (stdlib_prefix h) hashed sig else false.
+Definition stdlib_rsa_verify := stdlib_rsa_verify_with powmod.
 
 (* ------------------------------------------------ records and signed data *)
 Inductive rfield := FBytes (b : list N) | FName (n : list N).
@@ -682,6 +686,8 @@ Definition lib_preflight (k : dnskey) (s : rrsig) (rrset : list rr) : option boo
 Definition verify_signature_supported (alg : N) : bool := in_names alg verify_supported_alg_names.
 
 Section Crypto.
+  (* big.Int.Exp *)
+  Variable PM : N -> N -> N -> N.
   (* oracles *)
   Variable H : N -> list N -> list N.                         (* hash id, message -> digest *)
   Variable ECP : N -> list N -> bool.                         (* curve bits, X||Y -> is a point of the curve *)
@@ -690,7 +696,7 @@ Section Crypto.
   Variable LIBV : dnskey -> rrsig -> list rr -> N.            (* dns.RRSIG.Verify for algorithms sdns does not implement *)
 
   (* verifyRSASignature *)
-  Definition verify_rsa_signature (k : dnskey) (alg : N) (signed signature : list N) : N :=
+  Definition verify_rsa_signature_pm (k : dnskey) (alg : N) (signed signature : list N) : N :=
     match parse_rsa (k_pub k) with
     | None => E_MISSING_DNSKEY
     | Some (n, e) =>
@@ -702,9 +708,9 @@ Section Crypto.
         if bits e <=? stdlib_exponent_bits then
           match rsa_crypto_hash alg with
           | None => E_MISSING_DNSKEY
-          | Some ch => if stdlib_rsa_verify n e ch hashed signature then E_OK else E_SIG
+          | Some ch => if stdlib_rsa_verify_with PM n e ch hashed signature then E_OK else E_SIG
           end
-        else if rsa_verify n e prefix hashed signature then E_OK else E_SIG
+        else if rsa_verify_with PM n e prefix hashed signature then E_OK else E_SIG
       end
     end.
 
@@ -736,7 +742,7 @@ Section Crypto.
     else if EDV (fst d) signed signature then E_OK else E_SIG.
 
   (* verifySignature *)
-  Definition verify_signature (k : dnskey) (s : rrsig) (rrset : list rr) : N :=
+  Definition verify_signature_pm (k : dnskey) (s : rrsig) (rrset : list rr) : N :=
     let b := signature_binding k s rrset in
     if negb (b =? E_OK) then b else
     match signed_data s rrset with
@@ -744,15 +750,15 @@ Section Crypto.
     | inr signed =>
       let sg := b64_decode (s_signature s) in
       if negb (snd sg) then E_SIG
-      else if in_names (s_alg s) dispatch_rsa_alg_names then verify_rsa_signature k (s_alg s) signed (fst sg)
+      else if in_names (s_alg s) dispatch_rsa_alg_names then verify_rsa_signature_pm k (s_alg s) signed (fst sg)
       else if in_names (s_alg s) dispatch_ecdsa_alg_names then verify_ecdsa_signature k (s_alg s) signed (fst sg)
       else if in_names (s_alg s) dispatch_ed25519_alg_names then verify_ed25519_signature k signed (fst sg)
       else E_MISSING_DNSKEY
     end.
 
   (* cryptoVerify *)
-  Definition crypto_verify (k : dnskey) (s : rrsig) (rrset : list rr) : N :=
-    if verify_signature_supported (k_alg k) then verify_signature k s rrset else LIBV k s rrset.
+  Definition crypto_verify_pm (k : dnskey) (s : rrsig) (rrset : list rr) : N :=
+    if verify_signature_supported (k_alg k) then verify_signature_pm k s rrset else LIBV k s rrset.
 
   (* ------------------------------------------------------------- ds side *)
   (* dsDigestMatches *)
@@ -837,7 +843,7 @@ Section Crypto.
 
   (* verifyOneSigWithWork(keys, set, sig, nil, _) == nil.  [valid_now] is
      sig.ValidityPeriod(now), the only wall-clock input. *)
-  Definition verify_one_sig (keys : list (N * list dnskey)) (set : list rr) (s : rrsig) (valid_now : bool) : bool :=
+  Definition verify_one_sig_pm (keys : list (N * list dnskey)) (set : list rr) (s : rrsig) (valid_now : bool) : bool :=
     match find (fun p => fst p =? s_keytag s) keys with
     | None => false
     | Some p =>
@@ -847,6 +853,12 @@ Section Crypto.
       else if negb valid_now then false
       else if negb (is_supported_dnskey_alg (s_alg s)) then false
       else if negb (signature_matches_rrset s set) then false
-      else existsb (fun k => if usable_signature_candidate s k then crypto_verify k s set =? E_OK else false) cands
+      else existsb (fun k => if usable_signature_candidate s k then crypto_verify_pm k s set =? E_OK else false) cands
     end.
 End Crypto.
+
+(* the model proper: big.Int.Exp is square-and-multiply over N *)
+Definition verify_rsa_signature := verify_rsa_signature_pm powmod.
+Definition verify_signature := verify_signature_pm powmod.
+Definition crypto_verify := crypto_verify_pm powmod.
+Definition verify_one_sig := verify_one_sig_pm powmod.
